@@ -158,6 +158,7 @@ func (e *engEnv) prepare(c *EngCase, o *Out) error {
 		parsed, errs := schema.Parse(text)
 		if len(errs) == 0 {
 			viaOPL = true
+			c.ViaOPL = true
 			nss := make([]*namespace.Namespace, len(parsed))
 			for i := range parsed {
 				n := parsed[i]
@@ -285,20 +286,27 @@ func membStr(m checkgroup.Membership) string {
 	return "unknown"
 }
 
-// runCheck runs one check with the sequential (det=true) or the real concurrent
-// checkgroup and returns the canonical result and the number of storage calls.
-func (e *engEnv) runCheck(c *EngCase, det bool) (res string, calls int64) {
+func (e *engEnv) setLimits(c *EngCase) error {
 	if e.lastDepth != c.GDepth {
 		if err := e.reg.Config(e.ctx).Set(config.KeyLimitMaxReadDepth, c.GDepth); err != nil {
-			return "setup-error:" + err.Error(), 0
+			return err
 		}
 		e.lastDepth = c.GDepth
 	}
 	if e.lastWidth != c.Width {
 		if err := e.reg.Config(e.ctx).Set(config.KeyLimitMaxReadWidth, c.Width); err != nil {
-			return "setup-error:" + err.Error(), 0
+			return err
 		}
 		e.lastWidth = c.Width
+	}
+	return nil
+}
+
+// runCheck runs one check with the sequential (det=true) or the real concurrent
+// checkgroup and returns the canonical result and the number of storage calls.
+func (e *engEnv) runCheck(c *EngCase, det bool) (res string, calls int64) {
+	if err := e.setLimits(c); err != nil {
+		return "setup-error:" + err.Error(), 0
 	}
 	old := checkgroup.DefaultFactory
 	if det {
